@@ -64,11 +64,18 @@ class Graph:
     def reachable_nodes(self):
         return self.reach(self.start)
 
-    def must_pass(self, ev, start=None, end=None):
-        """does every path start -> end go through an event node?"""
+    def throw_nodes(self):
+        if not hasattr(self, '_throws'):
+            self._throws = frozenset(n for n in self.nodes if (self.tree(n) or {}).get('k') == 'CXXThrowExpr')
+        return self._throws
+
+    def must_pass(self, ev, start=None, end=None, normal=True):
+        """does every path start -> end go through an event node?  With normal=True a path that ends in a `throw`
+        is not an exit (the CFG routes throw expressions to the exit block)."""
         start = start or self.start
         end = end or self.end
-        return end not in self.reach(start, avoid=frozenset(ev))
+        avoid = frozenset(ev) | (self.throw_nodes() if normal else frozenset())
+        return end not in self.reach(start, avoid=avoid)
 
     def always_before(self, first, then):
         """every path from entry that reaches a `then` node has passed a `first` node."""
